@@ -38,3 +38,9 @@ package manifest
 //@   ensures [same-start-key] beq(result.StartKey, meta.StartKey)
 //@   ensures [same-end-key] beq(result.EndKey, meta.EndKey)
 //@   modifies nothing
+
+// Snapshot of the raft log pointers (a copy of the map): trusted, writes nothing.
+//@ func (*Manager).RaftPointerSnapshot
+//@   trusted
+//@   tag ghost-pure
+//@   modifies nothing
